@@ -1231,18 +1231,47 @@ def r3_loop_paths(corpus: Corpus, rep: Report, tier: str):
 # R4 registry key normalisation
 
 
-def _name_writers(corpus: Corpus) -> list[tuple[FunctionInfo, ast.Call, ast.expr]]:
-    """Every ``X["names"].append(N)`` in the package."""
+def _name_writers(corpus: Corpus) -> list[tuple[FunctionInfo, ast.AST, ast.expr]]:
+    """Every place that puts a new name N on a node: ``X["names"].append(N)`` / ``.extend([N])`` and
+    ``X["names"] = [N, ...]`` (a re-bound list literal; ``X["names"] = saved + X["names"]`` only restores).
+    The middle element is the writing construct (Call or Assign); its subject X is ``_writer_subject(...)``."""
     out = []
     for f in corpus.all_functions():
         if f.is_lambda:
             continue
         for n in f.local_nodes():
-            if isinstance(n, ast.Call) and isinstance(n.func, ast.Attribute) and n.func.attr in ("append", "extend") and isinstance(n.func.value, ast.Subscript):
+            if isinstance(n, ast.Call) and isinstance(n.func, ast.Attribute) and n.func.attr in ("append", "extend", "insert") and isinstance(n.func.value, ast.Subscript):
                 s = n.func.value
                 if isinstance(s.slice, ast.Constant) and s.slice.value == "names" and n.args:
-                    out.append((f, n, n.args[0]))
+                    arg = n.args[-1]
+                    if n.func.attr == "extend" and isinstance(arg, (ast.List, ast.Tuple)):
+                        out.extend((f, n, e) for e in arg.elts)
+                    else:
+                        out.append((f, n, arg))
+            elif isinstance(n, (ast.Assign, ast.AugAssign)):
+                targets = n.targets if isinstance(n, ast.Assign) else [n.target]
+                if any(isinstance(t, ast.Subscript) and isinstance(t.slice, ast.Constant) and t.slice.value == "names" for t in targets):
+                    # list literals in `[N]`, `old + [N]`, `+= [N]` carry the new names; other operands only keep/restore
+                    lits: list[ast.expr] = []
+                    work = [n.value]
+                    while work:
+                        v = work.pop()
+                        if isinstance(v, (ast.List, ast.Tuple)):
+                            lits.extend(v.elts)
+                        elif isinstance(v, ast.BinOp) and isinstance(v.op, ast.Add):
+                            work += [v.left, v.right]
+                    out.extend((f, n, e) for e in lits if not isinstance(e, ast.Starred))
     return out
+
+
+def _writer_subject(w: ast.AST) -> ast.AST | None:
+    if isinstance(w, ast.Call):
+        return w.func.value.value  # X in X["names"].append(...)
+    if isinstance(w, (ast.Assign, ast.AugAssign)):
+        for t in w.targets if isinstance(w, ast.Assign) else [w.target]:
+            if isinstance(t, ast.Subscript) and isinstance(t.slice, ast.Constant) and t.slice.value == "names":
+                return t.value
+    return None
 
 
 def _is_normaliser(f: FunctionInfo):
@@ -1282,7 +1311,7 @@ def _key_kind(f: FunctionInfo, e: ast.expr) -> str:
     return "raw"
 
 
-def _registration(f: FunctionInfo, call: ast.Call) -> tuple[str | None, ast.Call | None]:
+def _registration(f: FunctionInfo, call: ast.AST) -> tuple[str | None, ast.Call | None]:
     """'explicit' / 'implicit' if the node whose names are appended is registered afterwards in ``f``."""
     cfg = get_cfg(f)
     st = cfg.stmt_of(call)
@@ -1316,7 +1345,7 @@ def r4_key_normalisation(corpus: Corpus, rep: Report, tier: str):
         kind, _ = _registration(f, call)
         if kind != "explicit":
             continue
-        subj = call.func.value.value  # X in X["names"].append(...)
+        subj = _writer_subject(call)
         tag = None
         if isinstance(subj, ast.Name):
             for val, idx, _ in _bindings(f, subj.id):
@@ -1486,7 +1515,7 @@ def r5_explicit_only(corpus: Corpus, rep: Report, tier: str):
     seen = set()
     for f, call, arg in _name_writers(corpus):
         kind, reg = _registration(f, call)
-        k = f"{f.fq}|names.append({short(arg, 30)}) registration"
+        k = f"{f.fq}|names.append({short(arg, 30)}) registration"  # key text kept for `names = [N]` writers too (stable keys)
         site = f.module.site(call)
         if f.fq in EXPLICIT_WRITERS:
             seen.add(f.fq)
